@@ -175,20 +175,21 @@ func gHasDupVals(t *gTree) bool {
 }
 
 type gWorld struct {
-	ctx    context.Context
-	mode   string
-	kvdb   kv.DB
-	db     *DB
-	tbl    *Table[int32, gEntry]
-	li     *LookupIndex[int32, gEntry, string]
-	si     *SortedIndex[int32, gEntry, string]
-	remote atomic.Bool
-	txs    map[string]Tx
-	armed  atomic.Pointer[func()]
-	inner  chan struct{}
-	defs   *gDefs
-	stats  *gStats
-	step   int
+	ctx     context.Context
+	mode    string
+	kvdb    kv.DB
+	db      *DB
+	tbl     *Table[int32, gEntry]
+	li      *LookupIndex[int32, gEntry, string]
+	si      *SortedIndex[int32, gEntry, string]
+	remote  atomic.Bool
+	txs     map[string]Tx
+	pending []Tx // committed, not yet closed (closed at the start of the next step)
+	armed   atomic.Pointer[func()]
+	inner   chan struct{}
+	defs    *gDefs
+	stats   *gStats
+	step    int
 	// zero: abstract value "a" is stored as "" (the Go zero value of the indexed field);
 	// the order "" < "b" < "c" is that of a < b < c
 	zero bool
@@ -315,7 +316,15 @@ func gOpen(ctx context.Context, mode string, zero bool, pre map[string]string, d
 	return w, nil
 }
 
+func (w *gWorld) closePending() {
+	for _, t := range w.pending {
+		_ = t.Close()
+	}
+	w.pending = nil
+}
+
 func (w *gWorld) close() {
+	w.closePending()
 	for _, t := range w.txs {
 		_ = t.Close()
 	}
@@ -423,6 +432,10 @@ func gDedup(a []string) ([]string, bool) {
 // apply performs one step's call on the real table and returns its result class.
 func (w *gWorld) apply(s *gStep, n int) (string, error) {
 	ctx := w.ctx
+	// transactions committed by the previous step are closed only now: the queries that
+	// followed that step ran between Commit's return and Close (call sites with a deferred
+	// Close; "after commit every reader sees them" speaks about Commit, not Close)
+	w.closePending()
 	sorted := n%2 == 1
 	setVal := func(v string) func(Context, gEntry) gEntry {
 		return func(_ Context, e gEntry) gEntry { e.Val = w.conc(v); return e }
@@ -446,9 +459,11 @@ func (w *gWorld) apply(s *gStep, n int) (string, error) {
 		t := w.txs[s.U]
 		delete(w.txs, s.U)
 		if err := t.Commit(ctx); err != nil {
+			_ = t.Close()
 			return "error", err
 		}
-		return cls(t.Close())
+		w.pending = append(w.pending, t)
+		return "ok", nil
 	case "abort":
 		t := w.txs[s.U]
 		delete(w.txs, s.U)
@@ -1223,4 +1238,123 @@ func TestVerifGorpConcurrent(t *testing.T) {
 	for _, o := range outs {
 		_ = enc.Encode(o)
 	}
+}
+
+// gGateObs forwards every kv change to the index observer like the default observable,
+// and is a scheduler gate at the moment OpenTable SUBSCRIBES: right after the handler is
+// attached a replicated write (below the table) to a row that already exists is issued from
+// another goroutine, and the subscription call returns only once the handler has processed
+// it - or after 50 ms, which is what happens when OpenTable already holds the indexes'
+// populate locks (the handler then waits for the bulk load, as the code documents).
+type gGateObs struct {
+	src  kv.DB
+	fire func()
+	wait *sync.WaitGroup
+}
+
+func (o gGateObs) OnChange(h func(context.Context, kv.TxReader)) observe.Disconnect {
+	done := make(chan struct{})
+	var once sync.Once
+	d := o.src.OnChange(func(ctx context.Context, r kv.TxReader) {
+		h(ctx, r)
+		once.Do(func() { close(done) })
+	})
+	o.wait.Add(1)
+	go func() { defer o.wait.Done(); o.fire() }()
+	select {
+	case <-done:
+	case <-time.After(50 * time.Millisecond):
+	}
+	return d
+}
+
+// TestVerifGorpGated: the bulk populate of OpenTable against a replicated write that
+// arrives exactly between the observer subscription and the start of the bulk load. After
+// quiescence the index must be the inverse of the table (no row listed twice, none missing).
+func TestVerifGorpGated(t *testing.T) {
+	out := os.Getenv("VERIF_OUT")
+	if out == "" {
+		t.Skip("VERIF_OUT not set")
+	}
+	ctx := context.Background()
+	type outc struct {
+		Kind   string `json:"kind"`
+		Mode   string `json:"mode"`
+		Trials int    `json:"trials"`
+		Stale  int    `json:"stale"`
+		Sample string `json:"sample,omitempty"`
+	}
+	o := outc{Kind: "populate-gated", Mode: "gate"}
+	// the replicated write: same value again, another value, or a delete of an existing row
+	for _, variant := range []string{"same", "other", "delete", "same", "other"} {
+		o.Trials++
+		w := &gWorld{ctx: ctx, mode: "ext", txs: map[string]Tx{}, defs: &gDefs{}, stats: &gStats{}}
+		w.kvdb = memkv.New()
+		var wg sync.WaitGroup
+		w.db = Wrap(w.kvdb, WithIndexObservable(gGateObs{src: w.kvdb, wait: &wg, fire: func() {
+			switch variant {
+			case "same":
+				e := gEntry{ID: 2, Val: "b"}
+				_ = NewCreate[int32, gEntry]().Entry(&e).Exec(ctx, w.db)
+			case "other":
+				e := gEntry{ID: 2, Val: "c"}
+				_ = NewCreate[int32, gEntry]().Entry(&e).Exec(ctx, w.db)
+			case "delete":
+				_ = NewDelete[int32, gEntry]().Where(MatchKeys[int32, gEntry](2)).Exec(ctx, w.db)
+			}
+		}}))
+		seed := []gEntry{{ID: 1, Val: "a"}, {ID: 2, Val: "b"}, {ID: 3, Val: "b"}, {ID: 4, Val: "c"}}
+		if err := NewCreate[int32, gEntry]().Entries(&seed).Exec(ctx, w.db); err != nil {
+			t.Fatal(err)
+		}
+		w.li = NewLookupIndex[int32, gEntry, string]("val_l", func(e *gEntry) string { return e.Val })
+		w.si = NewSortedIndex[int32, gEntry, string]("val_s", func(e *gEntry) string { return e.Val })
+		tbl, err := OpenTable[int32, gEntry](ctx, TableConfig[int32, gEntry]{DB: w.db, Indexes: []Index[int32, gEntry]{w.li, w.si}})
+		if err != nil {
+			t.Fatal(err)
+		}
+		w.tbl = tbl
+		_ = tbl.WaitForIndexes(ctx)
+		wg.Wait()
+		time.Sleep(2 * time.Millisecond)
+		var rows []gEntry
+		why := ""
+		if err := w.tbl.NewRetrieve().Entries(&rows).Exec(ctx, w.db); err != nil {
+			why = err.Error()
+		}
+		want := map[string][]string{}
+		for _, e := range rows {
+			want[e.Val] = append(want[e.Val], gKeyName(e.ID))
+		}
+		for _, v := range []string{"a", "b", "c"} {
+			for which := 0; which < 2 && why == ""; which++ {
+				var ks []int32
+				if which == 0 {
+					ks, _ = w.li.Get(nil, v)
+				} else {
+					ks, _ = w.si.Get(nil, v)
+				}
+				names := make([]string, len(ks))
+				for i, k := range ks {
+					names[i] = gKeyName(k)
+				}
+				if !gSetEq(names, want[v]) || len(names) != len(want[v]) {
+					why = fmt.Sprintf("replicated write (%s) at subscription: rows=%v but Get(nil,%q)=%v (index %d)", variant, rows, v, gSorted(names), which)
+				}
+			}
+		}
+		if why != "" {
+			o.Stale++
+			if o.Sample == "" {
+				o.Sample = why
+			}
+		}
+		w.close()
+	}
+	of, err := os.Create(out)
+	if err != nil {
+		t.Fatal(err)
+	}
+	defer of.Close()
+	_ = json.NewEncoder(of).Encode(o)
 }
